@@ -609,8 +609,12 @@ def turn_cases(draw):
             dur[slot] += wall
     mode = draw(st.sampled_from(["file", "file", "capture"]))
     policy = draw(st.sampled_from(POLICIES))
+    # an earlier slice of the same agent on the same state (same text, graph version unchanged) under OTHER slice budgets:
+    # whatever the engine kept from it (stage caches) must not loosen or tighten this slice's clamps
+    warm = draw(st.sampled_from([None, None, {}, {"t1_pops": 5000, "t1_iters": 50}, {"t1_pops": 1}, {"t1_pops": 0, "t1_iters": 0},
+                                 {"t1_iters": 1}, {"t1_pops": 3, "t1_iters": 2}]))
     return {"graphs": graphs, "active": gids, "text": text, "episodes": [list(e) for e in eps], "quantum": q,
-            "budgets": budgets, "dur": dur, "mode": mode, "policy": policy}
+            "budgets": budgets, "dur": dur, "mode": mode, "policy": policy, "warm": warm}
 
 
 def _read_jsonl(path):
@@ -680,6 +684,14 @@ def check_turn(case, rec=None):
         state = {"store": build_store(case["graphs"]), "active_graphs": list(case["active"]), "mem_index": idx,
                  "_boot_loaded": True, "version_etag": "0"}
         ctx = make_ctx(cfg, agent="A", turn_id=7)
+        if case.get("warm") is not None:
+            wctx = make_ctx(cfg, agent="A", turn_id=6)
+            if case["warm"]:
+                wctx.slice_budgets = dict(case["warm"])
+            try:
+                core._t1_propagate(wctx, state, case["text"])
+            except Exception:
+                pass  # a crash inside the stage is C12's business
         capture = {}
         if case["mode"] == "capture":  # the demo driver's mode: the orchestrator hands the event over instead of writing it
             ctx._driver_writes_scheduler_log = True
